@@ -89,7 +89,7 @@ class _Builder:
         self.spec: dict = {"megacomplex": {}, "dataset": {}}
         self.params: dict[str, float] = {}
         self.by_class: dict[str, list[str]] = {}
-        self.pool = list(draw(st.permutations(PARAM_POOL)))
+        self.pool = list(PARAM_POOL)
         self.n_comp = 0
         self.ic_cache: dict[tuple, str] = {}
         self.mc_comps: dict[str, list[str]] = {}  # megacomplex label -> clp labels it produces
@@ -115,7 +115,9 @@ class _Builder:
 
     def fresh_param_label(self) -> str:
         if self.pool:
-            return self.pool.pop()
+            # (index draws instead of st.permutations: integers(a, b) with a > 0 are not reachable through
+            #  hypothesis' fuzz_one_input byte provider, which the thorough-tier atheris engine uses)
+            return self.pool.pop(self.draw(st.integers(0, len(self.pool) - 1)))
         self.n_extra += 1
         return f"extra.{self.n_extra}"
 
@@ -130,7 +132,7 @@ class _Builder:
     # ---- items
     def new_k_matrix(self) -> tuple[str, list[str]]:
         d = self.draw
-        n = d(st.integers(1, 3))
+        n = (1 + d(st.integers(0, 2)))
         cs = self.comps(n)
         used: list[str] = []
         entries = []
@@ -180,7 +182,7 @@ class _Builder:
             item["dispersion_center"] = self.param("disp_center")
             item["center_dispersion_coefficients"] = [self.param("disp_c") for _ in range(d(st.integers(0, 2)))]
             if d(st.booleans()):
-                item["width_dispersion_coefficients"] = [self.param("disp_w") for _ in range(d(st.integers(1, 2)))]
+                item["width_dispersion_coefficients"] = [self.param("disp_w") for _ in range((1 + d(st.integers(0, 1))))]
         if d(st.integers(0, 3)) == 0:
             item["normalize"] = False
         lab = self.label("irf")
@@ -208,7 +210,7 @@ class _Builder:
         clps: list[str] = []
         if typ == "decay":
             kms: list[str] = []
-            for _ in range(d(st.integers(1, 2))):
+            for _ in range((1 + d(st.integers(0, 1)))):
                 existing = [k for k in self.spec.get("k_matrix", {}) if k not in kms]
                 if existing and d(st.integers(0, 2)) == 0:
                     k = d(st.sampled_from(existing))
@@ -219,7 +221,7 @@ class _Builder:
                 clps += cs
             item["k_matrix"] = kms
         elif typ in ("decay-sequential", "decay-parallel"):
-            n = d(st.integers(1, 3))
+            n = (1 + d(st.integers(0, 2)))
             clps = self.comps(n)
             item["compartments"] = clps
             used: list[str] = []
@@ -227,7 +229,7 @@ class _Builder:
                 used.append(self.param("rate", avoid=used))
             item["rates"] = used
         elif typ in ("damped-oscillation", "pfid"):
-            n = d(st.integers(1, 2))
+            n = (1 + d(st.integers(0, 1)))
             labels = [f"o{self.n_comp + i + 1}" for i in range(n)]
             self.n_comp += n
             item["labels"] = labels
@@ -239,7 +241,7 @@ class _Builder:
             item["rates"] = [self.param(rc) for _ in range(n)]
             clps = [f"{x}_cos" for x in labels] + [f"{x}_sin" for x in labels]
         elif typ == "coherent-artifact":
-            item["order"] = d(st.integers(1, 3))
+            item["order"] = (1 + d(st.integers(0, 2)))
             if d(st.booleans()):
                 item["width"] = self.param("art_width")
         elif typ == "baseline":
@@ -249,7 +251,7 @@ class _Builder:
             item["target"] = "s1"
             clps = ["s1"]
         elif typ == "spectral":
-            n = d(st.integers(1, 3))
+            n = (1 + d(st.integers(0, 2)))
             clps = self.comps(n)
             shapes = {}
             for c in clps:
@@ -300,13 +302,18 @@ class _Builder:
         return lab
 
 
+def _pick(draw, pool, n):
+    rest = list(pool)
+    return [rest.pop(draw(st.integers(0, len(rest) - 1))) for _ in range(n)]
+
+
 @st.composite
 def models(draw, min_datasets: int = 1, max_datasets: int = 3):
     b = _Builder(draw)
     d = draw
-    n_ds = d(st.integers(min_datasets, max_datasets))
+    n_ds = min_datasets + d(st.integers(0, max_datasets - min_datasets))
     kinds = [d(st.sampled_from(["time", "time", "time", "time", "full", "spectral", "guide"])) for _ in range(n_ds)]
-    ds_labels = list(d(st.permutations(DATASET_LABELS)))[:n_ds]
+    ds_labels = _pick(d, DATASET_LABELS, n_ds)
     plans = []
     # 1st pass: the megacomplex lists (decides which attributes the dataset class has)
     for kind, dl in zip(kinds, ds_labels):
@@ -314,7 +321,7 @@ def models(draw, min_datasets: int = 1, max_datasets: int = 3):
         gmcs = None
         if kind in ("time", "full"):
             pool = TIME_TYPES if kind == "time" else ["decay", "decay-sequential", "decay-parallel"]
-            k = d(st.integers(1, 3 if kind == "time" else 2))
+            k = (1 + d(st.integers(0, 2 if kind == "time" else 1)))
             types = [d(st.sampled_from(pool)) for _ in range(k)]
             seen_unique = set()
             for t in types:
@@ -330,7 +337,7 @@ def models(draw, min_datasets: int = 1, max_datasets: int = 3):
                 mcs.append(b.get_mc(t, not_in=mcs))
             if kind == "full":
                 gmcs = []
-                for _ in range(d(st.integers(1, 2))):
+                for _ in range((1 + d(st.integers(0, 1)))):
                     gmcs.append(b.get_mc("spectral", not_in=gmcs, dimension="spectral"))
         elif kind == "spectral":
             mcs.append(b.get_mc("spectral", dimension="spectral"))
@@ -349,7 +356,7 @@ def models(draw, min_datasets: int = 1, max_datasets: int = 3):
     if d(st.integers(0, 2)) == 0:
         groups["default"] = {"residual_function": d(st.sampled_from(["variable_projection", "non_negative_least_squares"]))}
     n_custom = d(st.integers(0, 2))
-    custom = list(d(st.permutations(GROUP_LABELS)))[:n_custom]
+    custom = _pick(d, GROUP_LABELS, n_custom)
     for g in custom:
         groups[g] = {
             "residual_function": d(st.sampled_from(["variable_projection", "variable_projection", "non_negative_least_squares"])),
@@ -410,7 +417,7 @@ def models(draw, min_datasets: int = 1, max_datasets: int = 3):
 
     if d(st.integers(0, 2)) == 0:
         rels = []
-        for _ in range(d(st.integers(1, 2))):
+        for _ in range((1 + d(st.integers(0, 1)))):
             src, tgt = clp_label(), clp_label()
             if src == tgt or (not tgt.startswith("ghost") and budget[0] <= 0):
                 tgt = "ghost9"
@@ -426,7 +433,7 @@ def models(draw, min_datasets: int = 1, max_datasets: int = 3):
         b.spec["clp_relations"] = rels
     if d(st.integers(0, 2)) == 0:
         pens = []
-        for _ in range(d(st.integers(1, 2))):
+        for _ in range((1 + d(st.integers(0, 1)))):
             src, tgt = clp_label(), clp_label()
             if src == tgt:
                 tgt = "ghost9"
@@ -456,7 +463,7 @@ def models(draw, min_datasets: int = 1, max_datasets: int = 3):
     # unused items / parameters (defined, never referenced)
     if has_irf_attr and d(st.integers(0, 3)) == 0:
         b.new_irf()
-    for _ in range(d(st.integers(0 if b.params else 1, 2))):  # optimize() needs >= 1 free parameter
+    for _ in range(((0 if b.params else 1) + d(st.integers(0, 1)))):  # optimize() needs >= 1 free parameter
         b.params[b.fresh_param_label()] = 1.0
 
     used = sorted(b.params)
